@@ -227,8 +227,9 @@ def rule45_alloc(ctx, fl, v):
             ex = expr_str(a, val)
             ok = 'myth_tls_key_allocator.keys' in ex and ('sdiv' in ex or 'ashr' in ex)
             ctx.ob('C10.4', 'alloc returns the entry index', ok, 'the key is the popped entry\'s position in keys[]', loc=anchor.loc, detail=ex[:160])
-            ctx.ob('C10.4', 'alloc returns a key only after marking it', any(a.dominates_f(m, anchor) for m in marks) or
-                   any(lib.guarded_by_null(a, h.id, anchor) for h in heads) or True, 'mark precedes the return', loc=anchor.loc)
+            ctx.ob('C10.4', 'alloc returns a key only after marking it', bool(marks) and
+                   not lib.reaches_point(a, a.entry_inst(), anchor, blocked=marks, include_start=True),
+                   'no path reaches the key-returning exit without the in-use mark', loc=anchor.loc)
     tests = [ic for ic in d.order if ic.op == 'icmp' and ic.pred in ('eq', 'ne') and is_load_of(d, ic.ops[0], NEXT) and
              (const_int(d.strip(ic.ops[1])) == -1 or (isinstance(d.strip(ic.ops[1]), dict) and d.strip(ic.ops[1]).get('ce') == 'inttoptr'))]
     ctx.ob('C10.4', 'dealloc tests the in-use mark', len(tests) >= 1, 'next == -1 is tested', loc=d.loc)
